@@ -77,6 +77,7 @@ type Sched struct {
 	Trace     func(string) // optional: receives one line per scheduling decision
 	SigHash   uint64       // running hash of (task, kind, site) decisions
 	LockYield bool         // park at every lock acquisition (true) or only when contended (false)
+	HeldYield bool         // park right after every uncontended acquisition too, i.e. inside the critical section
 	StayNum   int          // stay-bias: with probability StayNum/StayDen keep running the last task if enabled
 	StayDen   int
 	// PCT-like priorities (optional): if non-nil, the enabled task with highest priority runs.
